@@ -1,5 +1,6 @@
 from typing import Any, Dict, Literal, Optional
 
+from pydantic import Extra
 from pydantic.fields import ModelField
 
 from ..util import is_public_name
@@ -103,6 +104,13 @@ def add_const_fields(consts: Dict[str, Any], *, override: bool = False):
 
                 else:  # new field
                     overridden.add(name)
+
+            elif mcls.__base__.__config__.extra is Extra.forbid:
+                # constant is a new field, but parent forbids extra fields
+                # -> child instances would not be valid for the parent
+                msg = f"{mcls.__name__}: Cannot define new field '{name}' "
+                msg += "if parent forbids extra fields!"
+                raise TypeError(msg)
 
             # this would force the exact constant on load
             # but this breaks parent compatibility if consts overridden!
